@@ -14,6 +14,8 @@ import CookModel.Lemmas.RoundtripInput
 import CookModel.Lemmas.RoundtripDoc
 import CookModel.Lemmas.RoundtripAnalysis
 import CookModel.Lemmas.RoundtripRecipe
+import CookModel.Lemmas.RoundtripSections
+import CookModel.Lemmas.RoundtripDocRecipe
 /-
   C01  Printing a recipe as Cooklang and parsing it returns that recipe.
 
@@ -974,5 +976,116 @@ theorem C01_well_spelled_marker_partial (cs : CharSpec) (k : TK) (c : Char) (nx 
     spellOK cs k [c] nx = true := rtin_spellOK_single cs k c nx h hk
 
 example : singleKind '@' = some .at ∧ singleKind '{' = some .openBrace ∧ singleKind '%' = some .percent := by decide
+
+/-! ### sections and `>>` metadata through the analysis pass (audit: closes the gap named in `C01_recipe_steps`) -/
+
+/-- Analysis layer for whole documents.  `blocks` is what the parser hands over for a recipe text made of
+    steps (`SBlock.step`: simple items as in `C01_analysis_simple`, non-empty), section lines
+    (`SBlock.sect`, named or not) and `>>` metadata entries (`SBlock.entry`) that are plain
+    (`EntryPlain`: not a `[mode]` switch under MODES, not a standard key whose value `check_std_entry`
+    rejects, not `time` / `prep time` / `cook time`).  With ADVANCED_UNITS and INLINE_QUANTITIES off,
+    `parse_events` returns a recipe with
+    * the sections `docSecs`: the blocks before the first section line form the unnamed first section
+      (absent when it has no step), every section line opens a section with the trimmed name of the
+      line; the steps of EACH section are numbered 1, 2, …; the index of a component item is the number
+      of components of its kind in ALL steps before it, across sections; a section without name and
+      without content is dropped, a named one without content is kept;
+    * the component tables in document order (across sections);
+    * the metadata map `docMeta`: the entries in document order with trimmed key and outer-trimmed
+      value, a repeated key keeps its position and takes the later value;
+    * exactly ONE diagnostic when there is a `>>` entry — the deprecation warning carrying the span of
+      every entry, in order — and none otherwise; no panic. -/
+theorem C01_analysis_doc {α : Type} [Arith α] (env : Env) (input : Str)
+    (hadv : env.ext.has Gen.EXT_ADVANCED_UNITS = false) (hinl : env.ext.has Gen.EXT_INLINE_QUANTITIES = false)
+    (blocks : List (SBlock α)) (hok : ∀ b ∈ blocks, b.OK env) :
+    ∃ c : Col α, parseEvents env input (blocks.flatMap SBlock.events) = ⟨some c, c.diags, none⟩ ∧
+      c.sections = docSecs env [] ⟨none, []⟩ 1 blocks ∧
+      c.ingredients.toList = (ingrsOf (docItems blocks)).map (ingrOf env) ∧
+      c.cookware.toList = (cwsOf (docItems blocks)).map (cwOf env) ∧
+      c.timers.toList = (timersOf (docItems blocks)).map (timerOf env) ∧
+      c.metaMap = docMeta env [] (docEntries blocks) ∧
+      c.diags = deprecation (docSpans (docEntries blocks)) ∧
+      c.inlineQ = #[] ∧ c.frontMatter = none :=
+  rts_parseEvents_doc env input hadv hinl blocks hok
+
+/-- what a plain `>>` entry does to the collector, whatever its state: the entry goes into the map, its
+    span into the list for the deprecation notice; a standard key additionally records its location and,
+    for `servings`, the parsed servings — and nothing else changes (no diagnostic) -/
+theorem C01_metadata_entry {α : Type} [Arith α] (env : Env) (input : Str) (k v : Text) (s : Col α)
+    (h : EntryPlain env k v) : (processEvent env input (.metadata k v) s).2 = entryEffect env k v s :=
+  rts_metadataA_plain env k v s h
+
+/-- The round trip for documents made of steps, section lines and `>>` metadata lines, from the printed
+    characters to the recipe (extends `C01_recipe_steps`; same hypotheses on the syntax layers:
+    `DocItem.ok`, `sepsOK`, `blankLinesOK`, well-spelledness, no front-matter fence; steps made of plain
+    definitions, `DocItem.simple`; ADVANCED_UNITS and INLINE_QUANTITIES off).  Metadata lines are plain
+    (`DocItem.plain`: with MODES on the key is not of the form `[…]`; if the key is a standard key the
+    standard check accepts the value and the key is not one of the three time keys).  Then
+    `CooklangParser::parse` returns a recipe, no panic, and
+    * `sections = absDocSecs …`: a function of the abstract document — unnamed leading section when
+      steps come before the first section line, one section per section line named by the line's name
+      (`leafText`: the name as written, inner spacing kept), steps numbered from 1 in each section,
+      component indices running through the whole document (see the example below);
+    * the three component tables as in `C01_recipe_steps`, over all steps of all sections;
+    * `metadata.map = absDocMeta …`: the entries in order, key and value as written (`leafText`), a
+      repeated key overwritten in place;
+    * the diagnostics are exactly: nothing when the document has no `>>` line, otherwise the ONE
+      deprecation warning with one label per `>>` line (the only warning the property's oracle allows).
+    Outside (tested only): front matter as the metadata carrier, the three time keys, mode switches,
+    references and intermediate references. -/
+theorem C01_recipe_doc {α : Type} [Arith α] (env : Env) (pre : List Tok) (doc : List (DocItem × List Tok))
+    (hadv : env.ext.has Gen.EXT_ADVANCED_UNITS = false) (hinl : env.ext.has Gen.EXT_INLINE_QUANTITIES = false)
+    (hpre : blankLinesOK pre = true) (hok : ∀ d ∈ doc, d.1.ok env.cs env.ext = true)
+    (hsimple : ∀ d ∈ doc, d.1.simple = true) (hplain : ∀ d ∈ doc, d.1.plain env)
+    (hseps : sepsOK (doc.map (·.2)) = true) (hw : WellSpelled env.cs (pre ++ docSpec doc))
+    (hfm : parseFrontmatter env.cs (render (pre ++ docSpec doc)) = none) :
+    ∃ (c : Col α) (spans : List Span),
+      parseRecipe env (render (pre ++ docSpec doc)) = ⟨some c, c.diags, none⟩ ∧
+      c.sections = absDocSecs [] ⟨none, []⟩ 1 (doc.map (·.1)) ∧
+      c.ingredients.toList = ((absDocSegs (doc.map (·.1))).filterMap SegX.ingr?).map absIngr ∧
+      c.cookware.toList = ((absDocSegs (doc.map (·.1))).filterMap SegX.cw?).map absCw ∧
+      c.timers.toList = ((absDocSegs (doc.map (·.1))).filterMap SegX.timer?).map absTimer ∧
+      c.metaMap = absDocMeta [] (doc.map (·.1)) ∧
+      c.diags = deprecation spans ∧ spans.length = ((doc.map (·.1)).filter DocItem.isMeta).length ∧
+      c.inlineQ = #[] ∧ c.frontMatter = none :=
+  rtx_parseRecipe_doc env pre doc hadv hinl hpre hok hsimple hplain hseps hw hfm
+
+/-! example: `>> source: grandma`, the first step of `C01_exStepsDoc`, `== Main course == `, its second
+    step, `>> source : book` (the key again).  Two sections: the unnamed one with step 1, `Main course`
+    with its own step 1 whose timer has index 0; the map has one entry with the later value. -/
+def C01_exFullDoc : List (DocItem × List Tok) :=
+  [(.metaLine [tk .word "source".toList] [tk .word "grandma".toList] { c := [tk .ws [' ']] }, [C01_nl, C01_nl]),
+   (.step (C01_exStepsDoc.map (·.1))[0]!, [C01_nl, C01_nl]),
+   (.sectionLine (some [tk .word "Main".toList, tk .ws [' '], tk .word "course".toList]) C01_exSPad, [C01_nl, C01_nl]),
+   (.step (C01_exStepsDoc.map (·.1))[1]!, [C01_nl, C01_nl]),
+   (.metaLine [tk .word "source".toList] [tk .word "book".toList] { a := [tk .ws [' ']], c := [tk .ws [' ']] }, [C01_nl])]
+
+example : (∀ d ∈ C01_exFullDoc, d.1.ok C01_stepsEnv.cs C01_stepsEnv.ext = true) ∧
+    (∀ d ∈ C01_exFullDoc, d.1.simple = true) ∧ sepsOK (C01_exFullDoc.map (·.2)) = true := by decide
+example : WellSpelled toyCharSpec (docSpec C01_exFullDoc) := by decide
+example : (parseFrontmatter toyCharSpec (render (docSpec C01_exFullDoc))).isNone = true := by decide
+example : ∀ d ∈ C01_exFullDoc, d.1.plain C01_stepsEnv := by
+  have hk : StdKey.ofStr (String.ofList (leafText [tk .word "source".toList])) = some .source := by decide
+  have hp : ∀ v p, (DocItem.metaLine [tk .word "source".toList] v p).plain C01_stepsEnv := by
+    intro v p
+    refine ⟨by decide, fun sk h => ?_⟩
+    rw [hk] at h
+    cases h
+    exact ⟨by simp [C01_stepsEnv], by decide⟩
+  intro d hd
+  simp only [C01_exFullDoc, List.mem_cons, List.not_mem_nil, or_false] at hd
+  rcases hd with rfl | rfl | rfl | rfl | rfl <;> first | exact hp _ _ | trivial
+example : absDocSecs [] ⟨none, []⟩ 1 (C01_exFullDoc.map (·.1)) =
+    [⟨none, [.step ⟨[.text "Fry ".toList, .ingredient 0, .text " with ".toList, .ingredient 1, .text " in ".toList,
+                     .cookware 0, .text ".".toList], 1⟩]⟩,
+     ⟨some "Main course".toList, [.step ⟨[.timer 0, .text " later.".toList], 1⟩]⟩] := by decide
+example : absDocMeta [] (C01_exFullDoc.map (·.1)) = [("source".toList, "book".toList)] := by decide
+example : ((C01_exFullDoc.map (·.1)).filter DocItem.isMeta).length = 2 := by decide
+/-- the conditions on metadata lines are needed: a time key may raise `time-overridden`, `[mode]` under
+    MODES is a switch, not an entry -/
+example : ¬ (DocItem.metaLine [tk .word "time".toList] [tk .int ['5']] {}).plain C01_stepsEnv := by
+  intro h
+  have hk : StdKey.ofStr (String.ofList (leafText [tk .word "time".toList])) = some .time := by decide
+  exact absurd (h.2 _ hk).2 (by decide)
 
 end Cook
